@@ -25,6 +25,7 @@ type LeaseScenario struct {
 	SameLocker  bool    // diesout: second tenure on the same Locker
 	TwoWaiters  bool    // lapse: a first waiter that gives up before the lease lapses, a second one that stays
 	Storage     string  // "" (kvs/inmem) or "redis" (kvs/redis over miniredis on the virtual clock, polling waiters)
+	SlowCas     string  // kept: "request" / "reply": the holder's storage needs a sixth of a lease for a CasByVersion (and honours contexts)
 	ManyFaults  bool    // kept: renewal requests may be lost many times in one tenure (request-lost only, fault budget from the config)
 	CtxEnds     bool    // kept: the holder acquires with LockWithCtx and that context is cancelled a fifth of a lease later; the storage honours contexts
 }
@@ -39,6 +40,9 @@ func (sc *LeaseScenario) String() string {
 	}
 	if sc.ManyFaults {
 		s += " request-lost-only"
+	}
+	if sc.SlowCas != "" {
+		s += " slow-cas-" + sc.SlowCas
 	}
 	return s
 }
@@ -133,6 +137,9 @@ func (sc *LeaseScenario) Build(obs *LeaseObs) func() {
 		case "kept":
 			gH.RenewFaults = sc.RenewFaults
 			gH.RequestLostOnly = sc.ManyFaults
+			if sc.SlowCas != "" {
+				gH.CasDelay, gH.CasDelayReply, gH.HonourCtx = L/6, sc.SlowCas == "reply", true
+			}
 			holding, unlocked, hdone, cdone, pdone := false, false, false, false, false
 			vsched.GoNamed("holder", func() {
 				defer func() { hdone = true }()
